@@ -745,7 +745,7 @@ func (r *Remote) addReferencesToUpdate(
 
 	for _, rs := range refspecs {
 		if rs.IsDelete() {
-			if err := r.deleteReferences(rs, remoteRefs, refsDict, cmds, false); err != nil {
+			if err := r.deleteReferences(rs, remoteRefs, refsDict, cmds, false, forceWithLease); err != nil {
 				return err
 			}
 		} else {
@@ -755,7 +755,7 @@ func (r *Remote) addReferencesToUpdate(
 			}
 
 			if prune {
-				if err := r.deleteReferences(rs, remoteRefs, refsDict, cmds, true); err != nil {
+				if err := r.deleteReferences(rs, remoteRefs, refsDict, cmds, true, forceWithLease); err != nil {
 					return err
 				}
 			}
@@ -803,6 +803,7 @@ func (r *Remote) deleteReferences(rs config.RefSpec,
 	refsDict map[string]*plumbing.Reference,
 	cmds *[]*packp.Command,
 	prune bool,
+	forceWithLease *ForceWithLease,
 ) error {
 	iter, err := remoteRefs.IterReferences()
 	if err != nil {
@@ -832,9 +833,41 @@ func (r *Remote) deleteReferences(rs config.RefSpec,
 			Old:  ref.Hash(),
 			New:  plumbing.ZeroHash,
 		}
+
+		// A lease protects deletions as well: the reference may only be
+		// removed if the remote still holds the expected value.
+		if forceWithLease != nil {
+			if err := r.checkDeleteWithLease(cmd, forceWithLease); err != nil {
+				return err
+			}
+		}
+
 		*cmds = append(*cmds, cmd)
 		return nil
 	})
+}
+
+func (r *Remote) checkDeleteWithLease(cmd *packp.Command, forceWithLease *ForceWithLease) error {
+	if forceWithLease.RefName.String() != "" && forceWithLease.RefName != cmd.Name {
+		return nil
+	}
+
+	expectedOID := forceWithLease.Hash
+	if expectedOID.IsZero() {
+		remotePrefix := fmt.Sprintf("refs/remotes/%s/", r.Config().Name)
+		tracking := plumbing.ReferenceName(remotePrefix + strings.TrimPrefix(cmd.Name.String(), "refs/heads/"))
+		ref, err := storer.ResolveReference(r.s, tracking)
+		if err != nil {
+			return err
+		}
+		expectedOID = ref.Hash()
+	}
+
+	if cmd.Old != expectedOID {
+		return fmt.Errorf("non-fast-forward update: %s", cmd.Name.String())
+	}
+
+	return nil
 }
 
 func (r *Remote) addObject(rs config.RefSpec,
